@@ -93,11 +93,11 @@ pub fn corpus(include_long: bool) -> Vec<Conv> {
     v.push(conv("cl-invalid", cat(&[b"POST /s HTTP/1.1\r\nContent-Length: +5\r\n\r\nhello", &get("/sm")]), ra(), false));
     // ---- handler variants
     v.push(conv("pipeline-drop-middle", cat(&[&get("/1"), &get("/2"), &get("/3")]),
-        AppProgram { plans: vec![ReqPlan::simple(), ReqPlan { read: ReadPlan::None, finish: Finish::Drop }, ReqPlan::simple()], recv: RecvStyle::Recv, deferred: false }, false));
+        AppProgram { plans: vec![ReqPlan::simple(), ReqPlan { read: ReadPlan::None, finish: Finish::Drop }, ReqPlan::simple()], recv: RecvStyle::Recv, deferred: false, thread_per_request: false }, false));
     v.push(conv("pipeline-raw-writer", cat(&[&get("/1"), &get("/2")]),
-        AppProgram { plans: vec![ReqPlan { read: ReadPlan::None, finish: Finish::Writer { parts: raw_response_parts(0, 6, 3), flush: true } }, ReqPlan::simple()], recv: RecvStyle::Recv, deferred: false }, false));
+        AppProgram { plans: vec![ReqPlan { read: ReadPlan::None, finish: Finish::Writer { parts: raw_response_parts(0, 6, 3), flush: true } }, ReqPlan::simple()], recv: RecvStyle::Recv, deferred: false, thread_per_request: false }, false));
     v.push(conv("pipeline-deferred", cat(&[&get("/1"), &post_cl("/2", b"xy"), &get("/3")]),
-        AppProgram { plans: vec![ReqPlan::simple()], recv: RecvStyle::Recv, deferred: true }, true));
+        AppProgram { plans: vec![ReqPlan::simple()], recv: RecvStyle::Recv, deferred: true, thread_per_request: false }, true));
     v.push(conv("chunked-response", get("/big"),
         AppProgram::uniform(ReqPlan { read: ReadPlan::None, finish: Finish::Respond(RespSpec { status: 200, body_len: 300, declared: false, threshold: None }) }), false));
     v.push(conv("incomplete-head", b"GET /inc HTTP/1.1\r\nHost: t\r\nX-Half".to_vec(), ra(), true));
@@ -108,7 +108,7 @@ pub fn corpus(include_long: bool) -> Vec<Conv> {
         v.push(conv("long-cl1025-then-get", cat(&[&post_cl("/l", &payload(1025)), &get("/n")]), ra(), false));
         v.push(conv("long-cl1025-unread-then-get", cat(&[&post_cl("/l", &payload(1025)), &get("/n")]), respond_unread(), false));
         v.push(conv("long-cl3000-partial", cat(&[&post_cl("/l", &payload(3000)), &get("/n")]),
-            AppProgram { plans: vec![ReqPlan { read: ReadPlan::part(100, 1500), finish: Finish::Respond(RespSpec::ok(5)) }, ReqPlan::simple()], recv: RecvStyle::Recv, deferred: false }, false));
+            AppProgram { plans: vec![ReqPlan { read: ReadPlan::part(100, 1500), finish: Finish::Respond(RespSpec::ok(5)) }, ReqPlan::simple()], recv: RecvStyle::Recv, deferred: false, thread_per_request: false }, false));
         v.push(conv("long-chunked-2100", cat(&[&post_chunked("/l", &payload(2100), &[1000, 1024, 76]), &get("/n")]), ra(), false));
         v.push(conv("long-head-1100", cat(&[format!("GET /lh HTTP/1.1\r\nX-Long: {}\r\n\r\n", "v".repeat(1100)).as_bytes(), &get("/n")]), ra(), false));
     }
